@@ -50,7 +50,8 @@ func (ups *Socket) Connect(manager cert.TlsConfig, mustSecure bool) error {
 		a.Scheme = addr.PlusEnd.ReplaceAllString(a.Scheme, "")
 		log.Debugf("Dialing TLS %s", a.String())
 
-		c, err = tls.Dial(n.Network(), n.String(), tlsConfig)
+		// the dialer's timeout covers the TLS handshake as well: a peer which never answers it must not block us
+		c, err = tls.DialWithDialer(&net.Dialer{Timeout: socketace.HandshakeTimeout}, n.Network(), n.String(), tlsConfig)
 	} else {
 		a.Scheme = addr.PlusEnd.ReplaceAllString(a.Scheme, "")
 		log.Debugf("Dialing plain %s", a.String())
@@ -68,6 +69,7 @@ func (ups *Socket) Connect(manager cert.TlsConfig, mustSecure bool) error {
 	if err != nil {
 		return errors.Wrapf(err, "Could not open connection")
 	} else if mustSecure && !cc.Secure() {
+		streams.TryClose(cc)
 		return errors.Errorf("Could not establish a secure connection to %v", ups.Address)
 	} else {
 		stream = cc
